@@ -277,3 +277,25 @@ def _panel_chars(footer):
     names = re.findall(rb"<[^>]*>|[A-Za-z]{3,}", footer)[:2]
     names = [n.strip(b"<>") for n in names]
     return names[0] + b"\0" + names[1] + b"\0"
+
+def check_newyear_spill():
+    """a footer whose DST start is 2 hours before January 1: civil seconds in the last hours of the last generated year (+400k)"""
+    lib()
+    return common.isolated(_check_newyear_spill, timeout=120)
+def _check_newyear_spill():
+    footer = b"AAA3BBB,J1/-2,J300"; so, do = -10800, -7200
+    z = {"N": 2, "T": 2, "off": [so, do], "dst": [0, 1], "abbr": [0, 4], "default": 0, "unix": [-(1 << 40), cal.sec(1990, 6, 1, 0, 0, 0)], "type": [0, 0], "chars": b"AAA\0BBB\0"}
+    img = tzif(z, footer)
+    h = lib().tzr_load(img, ctypes.c_size_t(len(img)))
+    if not h: return None
+    try:
+        for y in (2000, 2390, 2391, 2392, 2791, 3191):
+            cs = cal.sec(y, 12, 31, 23, 30, 0)
+            f = cal.from_sec(cs); out = (ctypes.c_longlong * 4)()
+            lib().tzr_make(ctypes.c_void_p(h), ctypes.c_longlong(f[0]), *[ctypes.c_int(x) for x in f[1:]], out)
+            b = (ctypes.c_longlong * 9)(); lib().tzr_break(ctypes.c_void_p(h), ctypes.c_longlong(out[1]), b)
+            if out[0] == 0 and list(b[:6]) != list(f):
+                return "zone with footer %r: lookup(civil %s) is UNIQUE at %d, but lookup(%d) displays %s" % (footer.decode(), f, out[1], out[1], tuple(b[:6]))
+    finally:
+        lib().tzr_free(ctypes.c_void_p(h))
+    return None
